@@ -25,12 +25,12 @@ func init() {
 		Doc: "stripJSONWrapper on a grammar of well-formed, nested, truncated, empty and oversized result/error envelopes",
 	})
 	simrt.Register(&simrt.Scenario{
-		Prop: "C07", Name: "mb-noise-garbage", Count: tiered(4000, 60000),
+		Prop: "C07", Name: "mb-noise-garbage", Count: tiered(4000, 480000),
 		Run: c07Noise, MaxOps: 1 << 20, Horizon: time.Hour,
 		Doc: "a real responder / initiator is fed garbage, truncated, extended or mutated handshake acts (act 1, 2 or 3; XX and KK; all versions) and garbage in place of encrypted records; it must return errors, never panic",
 	})
 	simrt.Register(&simrt.Scenario{
-		Prop: "C07", Name: "mb-inject-live", Count: tiered(250, 15000),
+		Prop: "C07", Name: "mb-inject-live", Count: tiered(250, 120000),
 		Run: func(rc *simrt.RunCtx) { c05RunX(rc, true, true) }, MaxOps: 6 << 20, Horizon: 6 * time.Hour,
 		Doc: "the full stack over the stub relay, which - besides dropping/delaying/breaking streams - delivers forged messages (garbage, GBN control/data packets with arbitrary fields, truncated/extended/flipped/replayed authentic messages, oversized control-message lengths) until a tape-chosen instant; no task may panic, streams must stay equal or fail visibly, and a connection opened afterwards must work",
 	})
